@@ -377,6 +377,9 @@ func genUE(r *kernel.Rand, o GenOpts, ord int) scn.UEParams {
 		p.DeregNgapOpt = mask(4)
 		p.SMCOpt = r.Intn(8) | r.Intn(4)<<4
 		p.ICSOpt = mask(5)
+		if rr := r.Sub("radio-cap"); p.ICSOpt&4 != 0 && rr.Chance(2, 3) { // the request stays below the emulator's 2048-octet buffer
+			p.RadioCapLen = rr.Pick(100, 127, 128, 200, 255, 256, 300, 512, 1000, 1500, rr.Range(5, 1500))
+		}
 		p.RegAccOpt = mask(5)
 		p.CUCOpt = r.Intn(4)
 		p.AccOpt = mask(15)
@@ -419,6 +422,14 @@ func genUE(r *kernel.Rand, o GenOpts, ord int) scn.UEParams {
 	}
 	if o.OptIEs {
 		p.AccLens = []int{r.Range(0, 120), r.Range(0, 120), r.Range(0, 120), r.Range(0, 120), r.Range(0, 60), r.Range(0, 40)}
+		if rb := r.Sub("big-accept"); rb.Chance(1, 8) {
+			// kilobytes of QoS flow descriptions or extended protocol configuration options: the setup
+			// request crosses the widths of the length determinants (8K, 16K fragments) and stays below
+			// the emulator's 65535-octet buffer
+			i := rb.Pick(2, 3)
+			p.AccLens[i] = rb.Pick(5000, 8100, rb.Range(8150, 8250), 12000, 16200, rb.Range(16300, 16450), 20000, rb.Range(32700, 32900), 50000)
+			p.AccOpt |= 1 << uint(4+i)
+		}
 	}
 	p.AMBRDL = boundaryInt(r, 4000000000000)
 	p.AMBRUL = boundaryInt(r, 4000000000000)
